@@ -9,6 +9,7 @@ import (
 	"os"
 	"path/filepath"
 	"runtime/debug"
+	"strings"
 	"testing"
 	"testing/synctest"
 	"time"
@@ -34,6 +35,9 @@ type c18Range struct {
 	Target string    `json:"target"` // board | machine | api
 	Tasks  [][]int64 `json:"tasks"`  // (start, end) pairs; a leading explicit-payload task is added when Mixed
 	Mixed  bool      `json:"mixed"`
+	// File, MsgID: name and identifier of the leading explicit task (Mixed); every valid text is a possible file name
+	File  string `json:"file,omitempty"`
+	MsgID string `json:"msg_id,omitempty"`
 }
 
 var c18RangeEdges = []int64{-1 << 63, -1 << 62, -(1 << 60), -18632, -2, -1, 0, 1, 2, 3, 18630, 18631, 18632, 18633, 18640, 1 << 20,
@@ -41,7 +45,19 @@ var c18RangeEdges = []int64{-1 << 63, -1 << 62, -(1 << 60), -18632, -2, -1, 0, 1
 
 func c18GenRange(rt *rapid.T) c18Range {
 	p := c18Range{Target: rapid.SampledFrom([]string{"board", "board", "machine", "machine", "api"}).Draw(rt, "target"), Mixed: rapid.Bool().Draw(rt, "mixed")}
+	p.File, p.MsgID = "f", "explicit"
+	if p.Mixed && rapid.Bool().Draw(rt, "awkwardName") {
+		p.File = rapid.SampledFrom(awkwardTexts).Draw(rt, "file")
+		if rapid.Bool().Draw(rt, "awkwardID") {
+			p.MsgID = rapid.SampledFrom(awkwardTexts).Draw(rt, "msgid")
+		} else {
+			p.MsgID = strings.ReplaceAll(p.File, " ", "-") + "_AbCdE" // what the node's API derives from a file name
+		}
+	}
 	k := rapid.IntRange(1, 2).Draw(rt, "ntasks")
+	if p.File != "f" && rapid.Bool().Draw(rt, "namesOnly") {
+		k = 0 // a batch of explicit payloads only
+	}
 	for i := 0; i < k; i++ {
 		a := rapid.SampledFrom(c18RangeEdges).Draw(rt, "start")
 		b := rapid.SampledFrom(c18RangeEdges).Draw(rt, "end")
@@ -63,7 +79,11 @@ func c18RunRange(t *testing.T, st *vstat.Stats, p c18Range) (v *viol) {
 	}
 	var tasks []map[string]any
 	if p.Mixed {
-		tasks = append(tasks, map[string]any{"MessageID": "explicit", "File": "f", "Payload": []byte("payload")})
+		file, id := p.File, p.MsgID
+		if file == "" {
+			file, id = "f", "explicit" // (replay files written before names were drawn)
+		}
+		tasks = append(tasks, map[string]any{"MessageID": id, "File": file, "Payload": []byte("payload")})
 	}
 	for i, r := range p.Tasks {
 		if len(r) != 2 {
@@ -75,7 +95,7 @@ func c18RunRange(t *testing.T, st *vstat.Stats, p c18Range) (v *viol) {
 		}
 		tasks = append(tasks, map[string]any{"MessageID": fmt.Sprintf("range-%d", i), "RangeStart": r[0], "RangeEnd": r[1]})
 	}
-	desc := fmt.Sprintf("%s path, tasks %v (leading explicit task: %v)", p.Target, p.Tasks, p.Mixed)
+	desc := fmt.Sprintf("%s path, tasks %v (leading explicit task: %v, file %q, id %q)", p.Target, p.Tasks, p.Mixed, p.File, p.MsgID)
 	idle := -1
 	for i, s := range tr.Steps {
 		if s.State == "stage_signing_idle" && idle < 0 {
@@ -98,6 +118,17 @@ func c18RunRange(t *testing.T, st *vstat.Stats, p c18Range) (v *viol) {
 			}
 			defer func() { nd.Close(); world.Drain() }()
 			before := kvSnapshot(nd)
+			if p.Target == "api" && len(p.Tasks) == 0 {
+				id, _ := hex.DecodeString(tr.Round)
+				body, _ := json.Marshal(map[string]any{"dkgID": id, "data": map[string][]byte{p.File: []byte("payload")}})
+				res, panicked, val := nd.SafeCall(http.MethodPost, "/proposeSignBatchMessages", body)
+				if panicked {
+					v = violf("api-handler-panic:names", "%s: the handler panicked: %v", desc, val)
+					return
+				}
+				outcome = fmt.Sprintf("http %d", res.Status)
+				return
+			}
 			if p.Target == "api" {
 				r := p.Tasks[0]
 				id, _ := hex.DecodeString(tr.Round)
@@ -183,7 +214,10 @@ func c18RunRange(t *testing.T, st *vstat.Stats, p c18Range) (v *viol) {
 	}
 	st.Class("range-target:" + p.Target)
 	st.Class("range-outcome:" + p.Target + ":" + outcome)
-	st.NonTrivial(fmt.Sprintf("r/%s/%v/%v", p.Target, p.Tasks, p.Mixed))
+	if p.Mixed && p.File != "f" && p.File != "" {
+		st.Class("range-target:" + p.Target + ":awkward-file-name")
+	}
+	st.NonTrivial(fmt.Sprintf("r/%s/%v/%v/%s/%s", p.Target, p.Tasks, p.Mixed, p.File, p.MsgID))
 	st.SampleEvery(150, map[string]any{"path": p.Target, "ranges": p.Tasks, "leading_explicit_task": p.Mixed, "outcome": outcome})
 	return nil
 }
